@@ -4,6 +4,7 @@ from __future__ import annotations
 import random
 import re
 import os
+from pathlib import Path
 import shutil
 import urllib.parse
 
@@ -337,9 +338,11 @@ def run_shard(ctx):
                 (base / "elsewhere" / "Ext.1.0.dsdl").write_text("uint8 e\n@sealed\n")
                 (base / "elsewhere" / "notes.txt").write_text("not a definition {{{\n")
                 tgt = rng.choice([root / "Ok.1.0.dsdl", base / "elsewhere" / "Ext.1.0.dsdl", base / "elsewhere" / "notes.txt", base / "elsewhere" / "deep",
-                                  base / "elsewhere" / "missing.1.0.dsdl", p, root])
-                p.symlink_to(tgt if rng.random() < 0.5 else os.path.relpath(str(tgt), str(p.parent)))
-                cls = "symlink-" + ("self" if tgt == p else "root" if tgt == root else tgt.name.replace(".", "_"))
+                                  base / "elsewhere" / "missing.1.0.dsdl", p, root,
+                                  # files that exist, pass for regular files, and cannot be read (EIO / EINVAL / EACCES for any user)
+                                  Path("/proc/self/mem"), Path("/proc/self/pagemap")])
+                p.symlink_to(tgt if (rng.random() < 0.5 or str(tgt).startswith("/proc")) else os.path.relpath(str(tgt), str(p.parent)))
+                cls = "symlink-" + ("self" if tgt == p else "root" if tgt == root else "unreadable" if str(tgt).startswith("/proc") else tgt.name.replace(".", "_"))
             else:
                 p.write_text(rng.choice(["@sealed\n", "@sealed\n", "uint8 x\n@sealed\n", "uint8 x\n@extent 64\n"]))
         except (OSError, ValueError):
@@ -372,7 +375,13 @@ def degenerate_targets(ctx, pydsdl):
     old = os.getcwd()
     try:
         os.chdir(base)
-        for tgt in ["", ".", "..", "/", "nsroot", "nsroot/", "nsroot/sub", "nsroot/.", "nsroot/..", "nsroot/Ok.1.0.dsdl/", "nsroot/Ok.1.0.dsdl/.", "./", "//"]:
+        (root / "loop").symlink_to("loop")
+        (root / "ping").symlink_to("pong")
+        (root / "pong").symlink_to("ping")
+        long = "a" * 300
+        for tgt in ["", ".", "..", "/", "nsroot", "nsroot/", "nsroot/sub", "nsroot/.", "nsroot/..", "nsroot/Ok.1.0.dsdl/", "nsroot/Ok.1.0.dsdl/.", "./", "//",
+                    "nsroot/loop/Foo.1.0.dsdl", "nsroot/ping/Foo.1.0.dsdl", "nsroot/loop", "nsroot/%s.1.0.dsdl" % long, "nsroot/%s/Foo.1.0.dsdl" % long,
+                    "nsroot/sub/" + "/".join(["d" * 200] * 30) + "/Foo.1.0.dsdl", "nsroot/Foo.1.0.dsdl\x00", "nsroot/\udc80.1.0.dsdl"]:
             for roots in (["nsroot"], [], [root], ["."]):
                 ctx.mon("file-name")
                 case = {"degenerate_target": tgt, "roots": [str(r) for r in roots]}
